@@ -56,6 +56,7 @@ fn main() {
             let order = args.get(3).map(|s| s.as_str()).unwrap_or("");
             match which {
                 "C19" => checks::c19::order_probe(order),
+                "C18" => checks::c18::order_probe(order),
                 _ => usage(),
             }
         }
